@@ -49,7 +49,10 @@ def heat(dgm1, dgm2, sigma=0.4):
 
     """
     return np.sqrt(
-        evalHeatKernel(dgm1, dgm1, sigma)
-        + evalHeatKernel(dgm2, dgm2, sigma)
-        - 2 * evalHeatKernel(dgm1, dgm2, sigma)
+        np.maximum(
+            evalHeatKernel(dgm1, dgm1, sigma)
+            + evalHeatKernel(dgm2, dgm2, sigma)
+            - 2 * evalHeatKernel(dgm1, dgm2, sigma),
+            0,
+        )
     )
